@@ -84,10 +84,14 @@ def draw_case(seed):
 
     def new_name(k, i):
         c = r.random()
+        if c > 0.93:
+            return current[k][i]          # rename to the name the item already carries (idempotent rename)
         if k == "c":
-            if c < 0.6:
+            if c < 0.5:
                 fresh[0] += 1
                 return "Ln/N%d;" % fresh[0]
+            if c < 0.62 and n["c"] > 1:
+                return current["c"][r.randrange(n["c"])]     # the current name of some (other) class: a collision
             if c < 0.8:
                 return names[k][i]
             return r.choice([s.split('"')[1] for s in consts if '"L' in s and ';"' in s] or ["Lz/Z;"])
